@@ -20,7 +20,8 @@ def pitfalls(ctx, rule, files):
                 "with elif (`if 'a' in d: .. elif 'b' in d: ..` handles only one of two independent entries); (c) tolerances handed "
                 "positionally to np.allclose / np.isclose come in numpy's order (rtol, atol); (d) np.meshgrid over a variable number of "
                 "axes (an index-combination grid) states indexing='ij' (the default 'xy' swaps the first two axes); (e) np.allclose / np.isclose "
-                "with a stated atol also state rtol (numpy's default rtol=1e-5 otherwise applies on top), except against a literal 0.")
+                "with a stated atol also state rtol (numpy's default rtol=1e-5 otherwise applies on top), except against a literal 0; "
+                "(f) where an angle that exceeds +/-c (c a multiple of pi) is shifted back, the shift is not c itself (a wrap into [-c, c] shifts by 2c).")
     rels = {x[len("strawberryfields/"):] if x.startswith("strawberryfields/") else x for x in files}
     n = 0
     for f in ctx.tree.all_functions():
@@ -82,6 +83,33 @@ def pitfalls(ctx, rule, files):
                 ctx.ob(rule, f.site, False, f"`{ast.unparse(sub)[:60]}` enumerates combinations with numpy's default indexing='xy': the "
                        "first two axes come out swapped with respect to itertools.product / kron order", role="meshgrid-xy",
                        line=sub.lineno)
+            if isinstance(sub, (ast.If, ast.While)):
+                # (f) an angle is wrapped into [-c, c] by shifting it by 2c; a shift by the threshold itself lands in the wrong half
+                r_ = rel(sub.test, True)
+                if r_ is not None and r_[0] in (">", ">=", "<", "<="):
+                    for var, thr in ((r_[1], r_[2]), (r_[2], r_[1])):
+                        if not isinstance(var, ast.Name):
+                            continue
+                        t = thr.operand if isinstance(thr, ast.UnaryOp) and isinstance(thr.op, ast.USub) else thr
+                        tt = ast.unparse(t).replace(" ", "")
+                        if "pi" not in tt:
+                            continue
+                        for st in sub.body:
+                            shift = None
+                            if isinstance(st, ast.AugAssign) and isinstance(st.op, (ast.Add, ast.Sub)) and isinstance(st.target, ast.Name) \
+                                    and st.target.id == var.id:
+                                shift = st.value
+                            elif isinstance(st, ast.Assign) and len(st.targets) == 1 and isinstance(st.targets[0], ast.Name) and \
+                                    st.targets[0].id == var.id and isinstance(st.value, ast.BinOp) and isinstance(st.value.op, (ast.Add, ast.Sub)) \
+                                    and isinstance(st.value.left, ast.Name) and st.value.left.id == var.id:
+                                shift = st.value.right
+                            if shift is None:
+                                continue
+                            n += 1
+                            ok = ast.unparse(shift).replace(" ", "") != tt
+                            ctx.ob(rule, f.site, ok, "" if ok else f"`{ast.unparse(sub.test)[:40]}` ... `{ast.unparse(st)[:40]}`: an angle beyond "
+                                   f"+/-{tt} is shifted by {tt}, i.e. by half of the period the interval [-{tt}, {tt}] stands for - the value "
+                                   "changes by a half turn instead of being wrapped", role="half-period-wrap", line=st.lineno)
             if isinstance(sub, ast.If) and len(sub.orelse) == 1 and isinstance(sub.orelse[0], ast.If):
                 def keytest(e):
                     if isinstance(e, ast.Compare) and len(e.ops) == 1 and isinstance(e.ops[0], ast.In) and \
